@@ -116,9 +116,13 @@ func replayOp(g *sim.G, label string) *sim.Op {
 // message fails (so the SDK discards both), followed by the same change on its own, which must then
 // behave exactly as if it had never been attempted.
 func rollbackProbe(g *sim.G, label string) []*sim.Op {
-	a := g.AdminOp(label+"/a", 100, []string{"AddRemoteTokenMessenger", "RemoveRemoteTokenMessenger", "LinkTokenPair", "UnlinkTokenPair", "EnableAttester", "DisableAttester",
+	return rollbackProbeOf(g, label, []string{"AddRemoteTokenMessenger", "RemoveRemoteTokenMessenger", "LinkTokenPair", "UnlinkTokenPair", "EnableAttester", "DisableAttester",
 		"SetMaxBurnAmountPerMessage", "UpdateSignatureThreshold", "UpdateMaxMessageBodySize", "PauseBurningAndMinting", "UnpauseBurningAndMinting",
 		"PauseSendingAndReceivingMessages", "UnpauseSendingAndReceivingMessages", "UpdatePauser", "UpdateAttesterManager", "UpdateTokenController", "UpdateOwner"})
+}
+
+func rollbackProbeOf(g *sim.G, label string, kinds []string) []*sim.Op {
+	a := g.AdminOp(label+"/a", 100, kinds)
 	b := failingMsg(g, label+"/fail")
 	ops := []*sim.Op{sim.Multi(a, b)}
 	ops = append(ops, followUps(g, label+"/use", a.SdkMsgs()[0])...)
